@@ -1,4 +1,403 @@
-//! C19 — placeholder until the module is written.
+//! C19 — The NFS base time only moves forward, and only on evidence from trusted devices.
+//!
+//! `nfs_voucher`'s state is process-global (trusted paths, base time), so
+//! every case runs in a fresh child process: `vp c19case` reads the case on
+//! stdin, executes it with the oracle after every call, and prints a verdict.
+use std::io::{Read, Write};
+use std::os::unix::fs::MetadataExt;
+use std::path::{Path, PathBuf};
+use std::process::{Command, Stdio};
+
+use proptest::prelude::*;
+use serde::{Deserialize, Serialize};
+use serde_json::Value;
+use vouched_time::nfs_voucher;
+
+use super::{parse_case, PropDef};
+use crate::engine::{self, CaseResult, Ctx, Fail, Outcome, Report, Tier};
+
+#[derive(Clone, Copy, Debug, PartialEq, Eq, Hash, Serialize, Deserialize)]
+pub enum FileRef {
+    /// A file created by this case on the device holding /verif (device A).
+    FreshA(u8),
+    /// A file that already existed on device A long before the case (old change-time).
+    StaleA(u8),
+    /// A file created by this case on /dev/shm (device B).
+    FreshB(u8),
+    /// /proc/self/stat
+    Proc,
+    /// /dev/null
+    DevNull,
+}
+
+#[derive(Clone, Copy, Debug, PartialEq, Eq, Hash, Serialize, Deserialize)]
+pub enum Now {
+    Epoch,
+    FarFuture,
+    Real,
+}
+
+#[derive(Clone, Copy, Debug, PartialEq, Eq, Hash, Serialize, Deserialize)]
+pub enum Call {
+    AddTrustedA(u8),
+    AddTrustedB(u8),
+    Observe(FileRef),
+    MaybeObserve(FileRef),
+    Scan,
+    GetBaseTime(Now),
+    GetUnlocked,
+    /// Bump a file's change-time (chmod).
+    Touch(FileRef),
+    SleepMs(u8),
+}
+
+#[derive(Clone, Debug, PartialEq, Eq, Hash, Serialize, Deserialize)]
+pub struct Case {
+    pub calls: Vec<Call>,
+}
+
+#[derive(Clone, Debug, Default, Serialize, Deserialize)]
+pub struct Verdict {
+    pub ok: bool,
+    pub sig: String,
+    pub msg: String,
+    pub untrusted_before_trusted: bool,
+    pub stale_after_fresh: bool,
+    pub base_moved: u32,
+    pub device_b_available: bool,
+    pub calls_run: u32,
+}
+
+const STALE_FILES: [&str; 4] = ["/verif/harness/Cargo.toml", "/verif/properties.jsonl", "/verif/harness/src/main.rs", "/verif/check"];
+
+struct Env {
+    dir_a: PathBuf,
+    dir_b: Option<PathBuf>,
+    trusted_devs: Vec<u64>,
+    trusted_paths: Vec<PathBuf>,
+}
+
+impl Env {
+    fn path(&self, f: FileRef) -> Option<PathBuf> {
+        Some(match f {
+            FileRef::FreshA(i) => self.dir_a.join(format!("fresh-{}", i % 4)),
+            FileRef::StaleA(i) => PathBuf::from(STALE_FILES[i as usize % STALE_FILES.len()]),
+            FileRef::FreshB(i) => self.dir_b.as_ref()?.join(format!("fresh-{}", i % 4)),
+            FileRef::Proc => PathBuf::from("/proc/self/stat"),
+            FileRef::DevNull => PathBuf::from("/dev/null"),
+        })
+    }
+
+    /// Opens (creating fresh files on demand) for reading.
+    fn open(&self, f: FileRef) -> Option<std::fs::File> {
+        let path = self.path(f)?;
+        if matches!(f, FileRef::FreshA(_) | FileRef::FreshB(_)) && !path.exists() {
+            std::fs::write(&path, b"x").ok()?;
+        }
+        std::fs::File::open(&path).ok()
+    }
+}
+
+fn ctime_ms(meta: &std::fs::Metadata) -> u64 {
+    (meta.ctime() as u64).saturating_mul(1000).saturating_add(meta.ctime_nsec() as u64 / 1_000_000)
+}
+
+fn base_now() -> (u64, raffle::Voucher) {
+    nfs_voucher::get_base_time_unlocked(time::OffsetDateTime::UNIX_EPOCH).expect("get_base_time_unlocked never fails")
+}
+
+fn pair_ok(base: u64, voucher: raffle::Voucher) -> bool {
+    let Ok(odt) = time::OffsetDateTime::from_unix_timestamp_nanos(base as i128 * 1_000_000) else {
+        return false;
+    };
+    vouched_time::VouchedTime::check(time::PrimitiveDateTime::new(odt.date(), odt.time()), base, voucher).is_ok()
+}
+
+/// Executes the case in this (fresh) process.
+fn execute(case: &Case) -> Verdict {
+    let mut v = Verdict { ok: true, ..Default::default() };
+    let pid = std::process::id();
+    let dir_a = Path::new(crate::engine::VERIF_ROOT).join(format!("harness/target/vp-tmp/c19-{pid}"));
+    let _ = std::fs::create_dir_all(&dir_a);
+    let dir_b = {
+        let d = PathBuf::from(format!("/dev/shm/vp-c19-{pid}"));
+        let dev_a = std::fs::metadata(&dir_a).map(|m| m.dev()).ok();
+        match std::fs::create_dir_all(&d) {
+            Ok(()) if std::fs::metadata(&d).map(|m| m.dev()).ok() != dev_a => Some(d),
+            _ => None,
+        }
+    };
+    v.device_b_available = dir_b.is_some();
+    let mut env = Env {
+        dir_a,
+        dir_b,
+        trusted_devs: vec![],
+        trusted_paths: vec![],
+    };
+    let mut saw_untrusted = false;
+    let mut observed_fresh_trusted = false;
+
+    let fail = |v: &mut Verdict, sig: &str, msg: String| {
+        v.ok = false;
+        v.sig = sig.to_string();
+        v.msg = msg;
+    };
+
+    for (i, call) in case.calls.iter().enumerate() {
+        v.calls_run = i as u32 + 1;
+        let (before, vb) = base_now();
+        if !pair_ok(before, vb) {
+            fail(&mut v, "bad-pair:unlocked", format!("before call #{i}: get_base_time_unlocked returned ({before}, ..) which fails VouchedTime's voucher check"));
+            break;
+        }
+        // Change-times the call may legitimately move the base time to.
+        let mut allowed: Vec<PathBuf> = vec![];
+        let mut returned: Vec<(u64, raffle::Voucher, &'static str)> = vec![];
+        let mut must_not_move = false;
+        let r = crate::engine::panics::catch(|| -> Result<(), String> {
+            match *call {
+                Call::AddTrustedA(k) | Call::AddTrustedB(k) => {
+                    let f = if matches!(call, Call::AddTrustedA(_)) { FileRef::FreshA(k) } else { FileRef::FreshB(k) };
+                    let Some(path) = env.path(f) else {
+                        return Ok(());
+                    };
+                    allowed.push(path.clone());
+                    nfs_voucher::add_trusted_path(path.clone()).map_err(|e| format!("add_trusted_path({}) failed: {e}", path.display()))?;
+                    let dev = std::fs::metadata(&path).map_err(|e| e.to_string())?.dev();
+                    if !env.trusted_devs.contains(&dev) {
+                        env.trusted_devs.push(dev);
+                    }
+                    env.trusted_paths.push(path);
+                }
+                Call::Observe(f) | Call::MaybeObserve(f) => {
+                    let Some(file) = env.open(f) else {
+                        return Ok(());
+                    };
+                    let dev = file.metadata().map_err(|e| e.to_string())?.dev();
+                    let trusted = env.trusted_devs.contains(&dev);
+                    if trusted {
+                        allowed.push(env.path(f).unwrap());
+                        if matches!(f, FileRef::FreshA(_) | FileRef::FreshB(_)) {
+                            observed_fresh_trusted = true;
+                        } else if observed_fresh_trusted {
+                            v.stale_after_fresh = true;
+                        }
+                    } else {
+                        must_not_move = true;
+                        saw_untrusted = true;
+                    }
+                    if env.trusted_devs.is_empty() {
+                        // nothing trusted yet
+                    } else if saw_untrusted && trusted {
+                        v.untrusted_before_trusted = true;
+                    }
+                    if let Call::Observe(_) = call {
+                        let (meta, update) = nfs_voucher::observe_file_time(&file).map_err(|e| format!("observe_file_time failed: {e}"))?;
+                        match (trusted, update) {
+                            (false, Some(_)) => return Err("VIOLATION:observe-untrusted-reports: observe_file_time reported a base time for a file on a device that is not trusted".into()),
+                            (true, None) => return Err("VIOLATION:observe-trusted-reports-nothing: observe_file_time reported nothing for a file on a trusted device".into()),
+                            (true, Some((ms, voucher))) => {
+                                if ms != ctime_ms(&meta) {
+                                    return Err(format!("VIOLATION:observe-wrong-time: observe_file_time reported {ms}, the file's change-time is {}", ctime_ms(&meta)));
+                                }
+                                returned.push((ms, voucher, "observe_file_time"));
+                            }
+                            (false, None) => {}
+                        }
+                    } else {
+                        nfs_voucher::maybe_observe_file_time(&file);
+                    }
+                }
+                Call::Scan => {
+                    allowed.extend(env.trusted_paths.iter().cloned());
+                    // May fail for I/O reasons; only the invariants matter.
+                    let _ = nfs_voucher::scan_base_time();
+                }
+                Call::GetBaseTime(now) => {
+                    allowed.extend(env.trusted_paths.iter().cloned());
+                    let now = match now {
+                        Now::Epoch => time::OffsetDateTime::UNIX_EPOCH,
+                        Now::FarFuture => time::OffsetDateTime::from_unix_timestamp(4_000_000_000).unwrap(),
+                        Now::Real => time::OffsetDateTime::now_utc(),
+                    };
+                    if let Ok((ms, voucher)) = nfs_voucher::get_base_time(now) {
+                        returned.push((ms, voucher, "get_base_time"));
+                    }
+                }
+                Call::GetUnlocked => {
+                    must_not_move = true;
+                    let (ms, voucher) = base_now();
+                    returned.push((ms, voucher, "get_base_time_unlocked"));
+                }
+                Call::Touch(f) => {
+                    must_not_move = true;
+                    if matches!(f, FileRef::FreshA(_) | FileRef::FreshB(_)) {
+                        if let Some(path) = env.path(f) {
+                            if env.open(f).is_some() {
+                                use std::os::unix::fs::PermissionsExt;
+                                let mode = std::fs::metadata(&path).map(|m| m.permissions().mode()).unwrap_or(0o644);
+                                let _ = std::fs::set_permissions(&path, std::fs::Permissions::from_mode(mode ^ 0o010));
+                            }
+                        }
+                    }
+                }
+                Call::SleepMs(ms) => {
+                    must_not_move = true;
+                    std::thread::sleep(std::time::Duration::from_millis((ms % 6) as u64));
+                }
+            }
+            Ok(())
+        });
+        match r {
+            Err(p) => {
+                fail(&mut v, &format!("panic:{}", p.signature()), format!("call #{i} {call:?} panicked: {}", p.describe()));
+                break;
+            }
+            Ok(Err(msg)) => {
+                if let Some(rest) = msg.strip_prefix("VIOLATION:") {
+                    let (sig, text) = rest.split_once(": ").unwrap_or((rest, rest));
+                    fail(&mut v, sig, format!("call #{i} {call:?}: {text}"));
+                } else {
+                    // An environment problem (I/O error): stop the case, it proves nothing.
+                    v.msg = format!("stopped at call #{i} {call:?}: {msg}");
+                }
+                break;
+            }
+            Ok(Ok(())) => {}
+        }
+        for (ms, voucher, what) in &returned {
+            if !pair_ok(*ms, *voucher) {
+                fail(&mut v, "bad-pair", format!("call #{i} {call:?}: {what} returned ({ms}, ..) which fails VouchedTime's voucher check"));
+            }
+        }
+        if !v.ok {
+            break;
+        }
+        let (after, va) = base_now();
+        if !pair_ok(after, va) {
+            fail(&mut v, "bad-pair:unlocked", format!("after call #{i} {call:?}: get_base_time_unlocked returned a pair that fails the voucher check"));
+            break;
+        }
+        if after < before {
+            fail(&mut v, "base-time-went-back", format!("call #{i} {call:?} moved the base time from {before} back to {after}"));
+            break;
+        }
+        if after != before {
+            v.base_moved += 1;
+            if env.trusted_devs.is_empty() {
+                fail(&mut v, "moved-before-trust", format!("call #{i} {call:?} moved the base time to {after} although no device is trusted yet"));
+                break;
+            }
+            if must_not_move {
+                fail(&mut v, "moved-on-untrusted-evidence", format!("call #{i} {call:?} moved the base time from {before} to {after} although it had no trusted file to look at"));
+                break;
+            }
+            let ctimes: Vec<u64> = allowed.iter().filter_map(|p| std::fs::metadata(p).ok()).map(|m| ctime_ms(&m)).collect();
+            if !ctimes.contains(&after) {
+                fail(
+                    &mut v,
+                    "moved-to-unknown-time",
+                    format!("call #{i} {call:?} moved the base time to {after}, which is not the change-time of any file it could legitimately have observed ({ctimes:?})"),
+                );
+                break;
+            }
+        }
+    }
+    let _ = std::fs::remove_dir_all(&env.dir_a);
+    if let Some(b) = &env.dir_b {
+        let _ = std::fs::remove_dir_all(b);
+    }
+    v
+}
+
+/// Entry point of the child process.
 pub fn child_main() {
-    std::process::exit(2);
+    let mut text = String::new();
+    if std::io::stdin().read_to_string(&mut text).is_err() {
+        std::process::exit(2);
+    }
+    let Ok(case) = serde_json::from_str::<Case>(&text) else {
+        std::process::exit(2);
+    };
+    let verdict = execute(&case);
+    println!("{}", serde_json::to_string(&verdict).unwrap());
+}
+
+pub fn check_case(case: &Case) -> CaseResult {
+    let exe = std::env::current_exe().map_err(|e| Fail::new("harness:exe", e.to_string()))?;
+    let mut child = Command::new(exe)
+        .arg("c19case")
+        .stdin(Stdio::piped())
+        .stdout(Stdio::piped())
+        .stderr(Stdio::null())
+        .spawn()
+        .map_err(|e| Fail::new("harness:spawn", e.to_string()))?;
+    child.stdin.take().unwrap().write_all(serde_json::to_string(case).unwrap().as_bytes()).map_err(|e| Fail::new("harness:pipe", e.to_string()))?;
+    let out = child.wait_with_output().map_err(|e| Fail::new("harness:wait", e.to_string()))?;
+    if !out.status.success() {
+        return Err(Fail::new("child-crashed", format!("the child process running the case ended with {}", out.status)));
+    }
+    let verdict: Verdict = serde_json::from_slice(&out.stdout).map_err(|e| Fail::new("harness:verdict", format!("unreadable verdict: {e}")))?;
+    if !verdict.ok {
+        return Err(Fail::new(verdict.sig, verdict.msg));
+    }
+    Ok(Outcome::new(verdict.untrusted_before_trusted || verdict.stale_after_fresh)
+        .label_if(verdict.untrusted_before_trusted, "untrusted_observation_before_trusted_one")
+        .label_if(verdict.stale_after_fresh, "stale_trusted_file_after_fresh_one")
+        .label_if(verdict.base_moved > 0, "base_time_moved")
+        .label_if(verdict.base_moved > 1, "base_time_moved_more_than_once")
+        .label_if(!verdict.device_b_available, "no_second_writable_device")
+        .label_if((verdict.calls_run as usize) < case.calls.len(), "stopped_early_on_io_error"))
+}
+
+fn file_ref() -> impl Strategy<Value = FileRef> {
+    prop_oneof![
+        4 => (0u8..4).prop_map(FileRef::FreshA),
+        3 => (0u8..4).prop_map(FileRef::StaleA),
+        3 => (0u8..4).prop_map(FileRef::FreshB),
+        1 => Just(FileRef::Proc),
+        1 => Just(FileRef::DevNull),
+    ]
+}
+
+fn call() -> impl Strategy<Value = Call> {
+    prop_oneof![
+        2 => (0u8..4).prop_map(Call::AddTrustedA),
+        1 => (0u8..4).prop_map(Call::AddTrustedB),
+        8 => file_ref().prop_map(Call::Observe),
+        2 => file_ref().prop_map(Call::MaybeObserve),
+        1 => Just(Call::Scan),
+        2 => prop_oneof![Just(Now::Epoch), Just(Now::FarFuture), Just(Now::Real)].prop_map(Call::GetBaseTime),
+        1 => Just(Call::GetUnlocked),
+        2 => file_ref().prop_map(Call::Touch),
+        2 => (1u8..6).prop_map(Call::SleepMs),
+    ]
+}
+
+fn case_strategy() -> impl Strategy<Value = Case> {
+    proptest::collection::vec(call(), 1..21).prop_map(|calls| Case { calls })
+}
+
+pub fn run(ctx: &Ctx, rep: &mut Report) {
+    let cases = ctx.share(ctx.tier.pick(6_000, 200_000));
+    engine::drive_opts(ctx, rep, "histories", case_strategy(), cases, check_case, true);
+}
+
+fn replay(_ctx: &Ctx, _group: &str, case: &Value) -> CaseResult {
+    check_case(&parse_case::<Case>(case)?)
+}
+
+pub fn def() -> PropDef {
+    PropDef {
+        id: "C19",
+        rule: "Each case runs in a fresh child process (the module state is process-global). A case is a sequence of 1..20 calls: add_trusted_path on the device holding /verif (A) or on /dev/shm (B), observe_file_time / maybe_observe_file_time on files created by the case on A or B, on files that existed long before (old change-times) on A, on /proc/self/stat and /dev/null, scan_base_time, get_base_time with 'now' at the epoch / far in the future / real, get_base_time_unlocked, chmod of a fresh file (bumps its change-time), short sleeps. With b = get_base_time_unlocked before and after every call: b never decreases; if it changed, a device is trusted, the call had trusted evidence to look at, and the new value is the change-time (ms, read back with stat) of a file the call could legitimately have observed (its argument if its device is trusted, the path being registered, or a registered path for scan / refresh); observe_file_time on an untrusted device reports nothing and on a trusted one reports exactly that file's change-time; every (base, voucher) pair returned by any call passes VouchedTime::check. The oracle never predicts whether the refresh policy fires. Non-trivial: an observation on an untrusted device followed later by one on a trusted device, or an old trusted file observed after a fresh one. Distinct: hash of the serialised case.",
+        assumptions: &[
+            "only two writable devices exist in the sandbox (the ext4 device holding /verif and /dev/shm); real NFS semantics are out of reach",
+            "a call that fails with an I/O error ends the case without a verdict for the remaining calls",
+        ],
+        exhaustive_note: None,
+        shards: |t: Tier| t.pick(8, 16),
+        run,
+        replay,
+    }
 }
